@@ -1423,6 +1423,35 @@ def unfold_for_else(fn: ast.AST) -> None:
             return unfold_for_else(fn)
 
 
+def unfold_product_loops(fn: ast.AST) -> None:
+    """``for a, b in itertools.product(A, B): BODY``  ->  ``for a in A: for b in B: BODY`` when B is a sequence that can be walked
+    again (a module constant, the ``*args`` tuple, a local bound once to a tuple/list) and BODY has no ``break`` (it would
+    leave the inner loop only); the loop has no else arm."""
+    args = fn.args  # type: ignore[attr-defined]
+    again = {args.vararg.arg} if args.vararg else set()
+    binds: dict = {}
+    for n in ast.walk(fn):
+        if isinstance(n, ast.Name) and isinstance(n.ctx, (ast.Store, ast.Del)):
+            binds[n.id] = binds.get(n.id, 0) + 1
+    for n in ast.walk(fn):
+        if isinstance(n, ast.Assign) and len(n.targets) == 1 and isinstance(n.targets[0], ast.Name) and binds.get(n.targets[0].id) == 1 and (isinstance(n.value, (ast.Tuple, ast.List)) or (isinstance(n.value, ast.Call) and isinstance(n.value.func, ast.Name) and n.value.func.id in ('tuple', 'list', 'sorted'))):
+            again.add(n.targets[0].id)
+    for loop in [n for n in ast.walk(fn) if isinstance(n, ast.For)]:
+        it = loop.iter
+        if not (isinstance(it, ast.Call) and isinstance(it.func, ast.Attribute) and it.func.attr == 'product' and isinstance(it.func.value, ast.Name) and it.func.value.id == 'itertools' and len(it.args) == 2 and not it.keywords and not loop.orelse):
+            continue
+        if not (isinstance(loop.target, ast.Tuple) and len(loop.target.elts) == 2) or any(isinstance(a, ast.Starred) for a in it.args):
+            continue
+        a_, b_ = it.args
+        if not (isinstance(a_, ast.Name) and isinstance(b_, ast.Name) and (b_.id in again or (b_.id.isupper() and b_.id not in binds))) or a_.id in binds and binds[a_.id] > 1:
+            continue
+        if any(isinstance(x, ast.Break) for st in loop.body for x in ast.walk(st)):
+            continue
+        inner = ast.copy_location(ast.For(target=loop.target.elts[1], iter=b_, body=loop.body, orelse=[]), loop)
+        loop.target, loop.iter, loop.body = loop.target.elts[0], a_, [inner]
+    ast.fix_missing_locations(fn)
+
+
 def unfold_next_search(fn: ast.AST) -> None:
     """``x = next((v for v in IT if C(v)), None)`` ; ``if x is None: A else: B(x)`` (both arms leave)  ->
     ``for x in IT: if C(x): B(x)`` ; ``A`` - provided C dereferences v (``v.attr`` evaluated unconditionally, an attribute None
@@ -2478,6 +2507,7 @@ def normal_form(fn: ast.AST, sigs: typing.Optional[SignatureIndex] = None, owner
         unfold_for_else(node)
         unfold_generator_loops(node)
         unfold_next_search(node)
+        unfold_product_loops(node)
         sink_returns(node)
         absorb_into_try_else(node)
         flatten_conditionals(node)
